@@ -4,8 +4,7 @@
            applicability test accepts, every haystack, every offset.  wf_re is the parser invariant
            "x{n,m} has n <= m"; is_pattern_anchored / is_end_anchored are the conditions under
            which SelectStrategy consults the predicate.
-   Part 2: what still fails on the current tree (a remaining defect).
-   Part 3: the ORIGINAL code before the fix named next to each statement. *)
+   Part 2: the ORIGINAL code before the fix named next to each statement. *)
 From Coq Require Import List NArith ZArith.
 From CV Require Import FastPath.
 Import ListNotations.
@@ -28,12 +27,11 @@ Theorem C19_composite_exact :
 Proof. exact FastPath.composite_exact. Qed.
 Print Assumptions C19_composite_exact.
 
-Theorem C19_composite_dfa_exact_partial :
+Theorem C19_composite_dfa_exact :
   forall r ps, cdfa_applicable r = true -> comp_build r = Some ps -> wf_re r = true ->
-  forallb (fun p => p_min p =? 1) ps = true ->
   forall h at_, cdfa_search_at ps h at_ = first_match h r at_.
-Proof. exact FastPath.composite_dfa_exact_partial. Qed.
-Print Assumptions C19_composite_dfa_exact_partial.
+Proof. exact FastPath.composite_dfa_exact. Qed.
+Print Assumptions C19_composite_dfa_exact.
 
 Theorem C19_branch_dispatch_exact :
   forall r d, is_pattern_anchored r = true -> bd_applicable r = true -> bd_build r = Some d ->
@@ -71,17 +69,7 @@ Proof. exact FastPath.digit_skip_partial. Qed.
 Print Assumptions C19_digit_skip_partial.
 
 
-(* ---------------------------------------------------------------- 2. remaining defect (current tree)
-   CompositeSequenceDFA runs a part x{n,} (n >= 2) as x+: `[a-z]{2,}[0-9]+` on "a1" gives [0,2]. *)
-
-Theorem C19_composite_dfa_exact_refuted :
-  exists r ps h at_, cdfa_applicable r = true /\ comp_build r = Some ps /\ wf_re r = true /\
-                     cdfa_search_at ps h at_ <> first_match h r at_.
-Proof. exact FastPath.composite_dfa_exact_refuted. Qed.
-Print Assumptions C19_composite_dfa_exact_refuted.
-
-
-(* ---------------------------------------------------------------- 3. original code before the fixes *)
+(* ---------------------------------------------------------------- 2. original code before the fixes *)
 
 (* original code before fix fb3838d *)
 Theorem C19_cc_original_refuted :
@@ -185,3 +173,18 @@ Theorem C19_dp_original_refuted :
                  dp_search_at_original r h at_ <> first_match h r at_.
 Proof. exact FastPath.dp_original_refuted. Qed.
 Print Assumptions C19_dp_original_refuted.
+
+(* original code before fix f33db41 (after ef62930): x{n,} with n >= 2 accepted and run as x+ *)
+Theorem C19_composite_dfa_original_refuted :
+  exists r ps h at_, cdfa_applicable_original_f33db41 r = true /\ comp_build r = Some ps /\ wf_re r = true /\
+                     cdfa_search_at ps h at_ <> first_match h r at_.
+Proof. exact FastPath.composite_dfa_original_refuted. Qed.
+Print Assumptions C19_composite_dfa_original_refuted.
+
+(* the code before f33db41 was already exact on the patterns whose parts all have minimum 1 *)
+Theorem C19_composite_dfa_original_partial :
+  forall r ps, cdfa_applicable_original_f33db41 r = true -> comp_build r = Some ps -> wf_re r = true ->
+  forallb (fun p => p_min p =? 1) ps = true ->
+  forall h at_, cdfa_search_at ps h at_ = first_match h r at_.
+Proof. exact FastPath.composite_dfa_original_partial. Qed.
+Print Assumptions C19_composite_dfa_original_partial.
